@@ -225,11 +225,18 @@ def k_ops(st):
             jobs.append(('full-' + order, nx, ny, cells, dx, dy, x0, y0))
     # masked grids: rectangles with cells removed (lookups fail inside the rectangle; some rows index with nan)
     for _ in range(ctx.n(40, 400)):
-        nx, ny = rng.randint(2, 5), rng.randint(2, 5)
+        nx, ny = rng.randint(2, 6), rng.randint(2, 6)
         cells = full_cells(nx, ny)
-        for _ in range(rng.randint(1, 3)):
-            if len(cells) > 2:
-                cells.pop(rng.randrange(len(cells)))
+        k = rng.random()
+        if k < 0.4 and nx >= 3 and ny >= 3:        # notched corners: the neighbours become corners themselves
+            for c in rng.sample([(0, 0), (0, ny - 1), (nx - 1, 0), (nx - 1, ny - 1)], rng.randint(1, 4)):
+                cells.remove(c)
+        elif k < 0.6 and nx >= 5 and ny >= 5:      # a hole two cells away from every edge: its neighbours become edges
+            cells.remove((rng.randint(2, nx - 3), rng.randint(2, ny - 3)))
+        else:                                      # anything: mostly rows that index with nan
+            for _ in range(rng.randint(1, 2)):
+                if len(cells) > 2:
+                    cells.pop(rng.randrange(len(cells)))
         dx, dy = rnd_step(rng), rnd_step(rng)
         jobs.append(('masked', nx, ny, cells, dx, dy, rnd_origin(rng, dx), rnd_origin(rng, dy)))
     # degenerate: single row / column / cell (outside the property's quantifier; the tie must still hold)
